@@ -29,6 +29,9 @@ import (
 
 type Case struct {
 	Mode       string            `json:"mode"` // "pipelines" | "readers"
+	// Erroneous: (readers) the set holds unknown groupings and types, so that entries carry errors of their own
+	// and of their descendants; it is read although processing reports errors.
+	Erroneous bool `json:"erroneous,omitempty"`
 	Sets       [][]ymodel.Source `json:"sets"` // pipelines: distinct sets; readers: Sets[0]
 	Goroutines int               `json:"goroutines"`
 	Rounds     int               `json:"rounds"`
@@ -217,14 +220,16 @@ func lcg(x *uint32) uint32 {
 	return *x >> 8
 }
 
-func loadProcessed(srcs []ymodel.Source) (*yang.Modules, error) {
+// loadProcessed loads and processes a set. With erroneous, a set whose processing reports errors is read all
+// the same (the error accessors are among the read operations).
+func loadProcessed(srcs []ymodel.Source, erroneous bool) (*yang.Modules, error) {
 	ms := yang.NewModules()
 	for _, s := range srcs {
 		if err := ms.Parse(s.Text, s.Name); err != nil {
 			return nil, err
 		}
 	}
-	if errs := ms.Process(); len(errs) > 0 {
+	if errs := ms.Process(); len(errs) > 0 && !erroneous {
 		return nil, fmt.Errorf("%v", errs)
 	}
 	return ms, nil
@@ -235,7 +240,7 @@ func runReaders(c Case) childResult {
 	var res childResult
 	kinds := []string{"entry", "find", "ns", "im", "im", "bynamespace", "ro", "defaults", "errors", "path", "print"}
 	for round := 0; round < c.Rounds; round++ {
-		ms, err := loadProcessed(c.Sets[0])
+		ms, err := loadProcessed(c.Sets[0], c.Erroneous)
 		if err != nil {
 			res.Mismatch = "set does not process cleanly: " + err.Error()
 			return res
@@ -278,7 +283,7 @@ func runReaders(c Case) childResult {
 		res.Queries += nq * c.Goroutines
 		res.FirstNS += c.Goroutines
 		// sequential reference on a fresh processed set
-		ms2, _ := loadProcessed(c.Sets[0])
+		ms2, _ := loadProcessed(c.Sets[0], c.Erroneous)
 		seq := make([]int, nq)
 		for i := range seq {
 			seq[i] = i
@@ -452,9 +457,17 @@ func gen(t *rapid.T) Case {
 		c.Mode = "pipelines"
 		c.Rounds = 3
 		n := rapid.IntRange(1, 3).Draw(t, "distinct-sets")
+		lexical := rapid.IntRange(0, 2).Draw(t, "lexical-errors") == 0
 		for i := 0; i < n; i++ {
 			set, _ := genSet(t)
-			c.Sets = append(c.Sets, set.Texts())
+			texts := set.Texts()
+			if lexical {
+				// a text with lexical errors comes first in every set (its own name and wording per set), so
+				// that the pipelines build their error reports at the same time
+				bad := rapid.SampledFrom([]string{"description \"bad \\q escape %d\"; leaf x { description \"second \\z %d\"; }", "leaf a { description \"never closed %d; }", "container c { /* comment %d without end", "leaf b { description 'open %d; }"}).Draw(t, "lexical-fault")
+				texts = append([]ymodel.Source{{Name: fmt.Sprintf("lex%d.yang", i), Text: fmt.Sprintf("module lex%d { namespace \"urn:lex%d\"; prefix l; "+bad+" }", i, i, i, i)}}, texts...)
+			}
+			c.Sets = append(c.Sets, texts)
 		}
 		return c
 	}
@@ -463,6 +476,17 @@ func gen(t *rapid.T) Case {
 	set, paths := genSet(t)
 	c.Sets = [][]ymodel.Source{set.Texts()}
 	c.Paths = paths
+	if rapid.IntRange(0, 2).Draw(t, "erroneous-set") == 0 {
+		// every module gets three unknown groupings at its top (errors of its own) and a container holding an
+		// unknown type and another unknown grouping (errors of descendants)
+		c.Erroneous = true
+		for i := range c.Sets[0] {
+			txt := c.Sets[0][i].Text
+			if k := strings.LastIndex(txt, "}"); k > 0 && strings.HasPrefix(strings.TrimSpace(txt), "module") {
+				c.Sets[0][i].Text = txt[:k] + fmt.Sprintf("  uses nosuch-a%d;\n  uses nosuch-b%d;\n  uses nosuch-c%d;\n  container cerr%d { leaf lerr { type nosuchtype; } uses nosuch-d; container deeper { uses nosuch-e; } }\n", i, i, i, i) + txt[k:]
+			}
+		}
+	}
 	return c
 }
 
@@ -474,7 +498,7 @@ func TestCheck(t *testing.T) {
 	ev.Run(t, ev.Spec[Case]{
 		ID:    "C19",
 		Level: "exploration",
-		Rule: "cases run in a child process built with the race detector (GOMAXPROCS=8). Mode 'pipelines': 8-16 goroutines released by a barrier, each loading, processing and dumping its own module set (1-3 distinct generated sets with typedefs, identities, submodules, augments), 3 rounds. Mode 'readers': one processed set, 8-16 goroutines each issuing the same 60 generated queries in its own shuffled order (cached entry lookup, path lookup of existing nodes with resolvable prefixes, Namespace, InstantiatingModule, FindModuleByNamespace, ReadOnly, DefaultValues, GetErrors, Path, Print), the first query of every reader being a first-time instantiating-module lookup, 4 rounds on freshly processed sets. " +
+		Rule: "cases run in a child process built with the race detector (GOMAXPROCS=8). Mode 'pipelines': 8-16 goroutines released by a barrier, each loading, processing and dumping its own module set (1-3 distinct generated sets with typedefs, identities, submodules, augments), 3 rounds. A third of the pipeline cases put a text with lexical errors (undefined escapes, unclosed quotes and comments; own name and wording per set) first in every set. Mode 'readers': one processed set (in a third of the cases one whose modules hold unknown groupings and types, so that entries carry errors of their own and of descendants), 8-16 goroutines each issuing the same 60 generated queries in its own shuffled order (cached entry lookup, path lookup of existing nodes with resolvable prefixes, Namespace, InstantiatingModule, FindModuleByNamespace, ReadOnly, DefaultValues, GetErrors, Path, Print), the first query of every reader being a first-time instantiating-module lookup, 4 rounds on freshly processed sets. " +
 			"Oracle: no report from the race detector on the child's output, no panic, and every goroutine's results equal those of a sequential run on a fresh set. " +
 			"Non-trivial = at least 2 goroutines actually ran; distinct by case",
 		Assumptions: []string{
